@@ -287,6 +287,63 @@ theorem lastDot_plain (L ss : List Text) (hne : ss ≠ []) (hp : Plain ss) : las
     obtain ⟨_, h2, h3⟩ := hp s (List.mem_of_getLast? hl)
     simp [h2, h3]
 
+/-- no dot segments (empty segments allowed) -/
+def NoDots (ss : List Text) : Prop := ∀ s ∈ ss, s ≠ segDot ∧ s ≠ segDotDot
+
+theorem walk_nodots (ss : List Text) : ∀ e, NoDots ss → (e ≠ [] ∨ ss.head? ≠ some []) →
+    walk e ss = e ++ ss ∧ symSkipsGo true e ss = false := by
+  induction ss with
+  | nil => intro e _ _; simp [walk, symSkipsGo]
+  | cons s ss ih =>
+    intro e hp hh
+    obtain ⟨h2, h3⟩ := hp s List.mem_cons_self
+    have hns : (s.isEmpty && e.isEmpty) = false := by
+      rcases hh with h | h
+      · have : e.isEmpty = false := by cases e <;> simp_all
+        simp [this]
+      · have : s ≠ [] := by simpa using h
+        have : s.isEmpty = false := by cases s <;> simp_all
+        simp [this]
+    have e1 : (s == segDot) = false := by simpa using h2
+    have e2 : (s == segDotDot) = false := by simpa using h3
+    have hpush : (listSymPush true e s).1 = e ++ [s] := by
+      unfold listSymPush
+      simp [e1, e2, hns]
+    obtain ⟨ihw, ihs⟩ := ih (e ++ [s]) (fun x hx => hp x (List.mem_cons_of_mem _ hx)) (.inl (by simp))
+    constructor
+    · rw [walk_cons, hpush, ihw]; simp
+    · simp only [symSkipsGo]
+      have : (s != segDot && s != segDotDot && s.isEmpty && e.isEmpty) = false := by
+        rw [Bool.and_assoc]
+        simp [hns]
+      rw [this]
+      simp only [Bool.false_eq_true, if_false, hpush]
+      exact ihs
+
+theorem symSkipsGo_append (L1 : List Text) : ∀ (e : List Text) (L2 : List Text),
+    symSkipsGo true e L1 = false → symSkipsGo true (walk e L1) L2 = false →
+    symSkipsGo true e (L1 ++ L2) = false := by
+  induction L1 with
+  | nil => intro e L2 _ h; simpa [walk] using h
+  | cons s L1 ih =>
+    intro e L2 h1 h2
+    simp only [List.cons_append, symSkipsGo] at h1 ⊢
+    by_cases hc : (s != segDot && s != segDotDot && s.isEmpty && e.isEmpty) = true
+    · rw [hc] at h1; simp at h1
+    · have hc' : (s != segDot && s != segDotDot && s.isEmpty && e.isEmpty) = false := by simpa using hc
+      rw [hc'] at h1 ⊢
+      simp only [Bool.false_eq_true, if_false] at h1 ⊢
+      exact ih _ L2 h1 (by rw [walk_cons] at h2; exact h2)
+
+theorem lastDot_nodots (L ss : List Text) (hne : ss ≠ []) (hp : NoDots ss) : lastDot (L ++ ss) = false := by
+  unfold lastDot
+  rw [List.getLast?_append]
+  cases hl : ss.getLast? with
+  | none => exact absurd (List.getLast?_eq_none_iff.mp hl) hne
+  | some s =>
+    obtain ⟨h2, h3⟩ := hp s (List.mem_of_getLast? hl)
+    simp [h2, h3]
+
 /-! ## the round trip -/
 
 section
@@ -437,7 +494,9 @@ theorem relative_roundtrip (oka : Grammar.OkAuth G) (we : Grammar.OkWE G) (a b a
           (Ref.dropCommon (nsegs (split a).path) (nsegs (Path.parent_or_empty (split b).path))).1))
         == Path.last (split b).path) = false)
     (hrem : (Ref.dropCommon (nsegs (split a).path) (nsegs (Path.parent_or_empty (split b).path))).1 ≠ [] ∧
-      [] ∉ (Ref.dropCommon (nsegs (split a).path) (nsegs (Path.parent_or_empty (split b).path))).1) :
+      ((Ref.dropCommon (nsegs (split a).path) (nsegs (Path.parent_or_empty (split b).path))).2.length
+          < (nsegs (Path.parent_or_empty (split b).path)).length ∨
+        (Ref.dropCommon (nsegs (split a).path) (nsegs (Path.parent_or_empty (split b).path))).1.head? ≠ some [])) :
     ∃ r t, Ref.relative_to a b = some r ∧ Ref.resolve r b = some t ∧ key t = key a := by
   have haR : Matches G.reference a := Matches.altL ha
   have hbR : Matches G.reference b := Matches.altL hb
@@ -480,10 +539,20 @@ theorem relative_roundtrip (oka : Grammar.OkAuth G) (we : Grammar.OkWE G) (a b a
   have hdfA : DotFree (nsegs (split a).path) := by
     unfold nsegs; rw [hpa]; exact nsegsOf_abs_dotFree _
   have hdfB : DotFree (nsegs (Path.parent_or_empty (split b).path)) := by rw [he0]; exact nsegsOf_abs_dotFree _
-  have hplain : Plain ss := by
+  have hplain : NoDots ss := by
     intro s hs
     have hm : s ∈ nsegs (split a).path := by rw [hA]; exact List.mem_append_right _ hs
-    refine ⟨fun e => hrem.2 (e ▸ hs), fun e => hdfA.1 (e ▸ hm), fun e => hdfA.2 (e ▸ hm)⟩
+    exact ⟨fun e => hdfA.1 (e ▸ hm), fun e => hdfA.2 (e ▸ hm)⟩
+  -- nothing is skipped: the common prefix is not empty, or the remainder does not begin with an
+  -- empty segment
+  have hstart : cb ≠ [] ∨ ss.head? ≠ some [] := by
+    rcases hrem.2 with h | h
+    · left
+      intro e
+      rw [e, List.nil_append] at hB
+      rw [hB] at h
+      exact Nat.lt_irrefl _ h
+    · exact .inr h
   have hnsA : ∀ s ∈ nsegs (split a).path, cSlash ∉ s := fun s hs => segs_no_slash _ s (nsegsOf_subset _ _ s hs)
   have hnsB : ∀ s ∈ nsegs (Path.parent_or_empty (split b).path), cSlash ∉ s :=
     fun s hs => segs_no_slash _ s (nsegsOf_subset _ _ s hs)
@@ -523,24 +592,30 @@ theorem relative_roundtrip (oka : Grammar.OkAuth G) (we : Grammar.OkWE G) (a b a
         cases x with
         | nil => simp at hsh'
         | cons c r => cases xs <;> simp [joinSlash]
-  -- no empty segment in the reference path: nothing is skipped
+  -- the segments of the reference path, and why nothing is skipped while they are appended
   have hS : splitSlash (renderRel L) = L ∨ splitSlash (renderRel L) = segDot :: L :=
     splitSlash_renderRel L hLne (fun s hs => (hLns s hs).1)
-  have hLnonempty : ∀ s ∈ L, s ≠ [] := by
-    intro s hs
-    rw [hL] at hs
-    rcases List.mem_append.mp hs with h | h
-    · simp only [List.mem_map] at h
-      obtain ⟨_, _, rfl⟩ := h; decide
-    · exact (hplain s h).1
-  have hSne : ∀ s ∈ splitSlash (renderRel L), s ≠ [] := by
-    intro s hs
-    rcases hS with e | e <;> rw [e] at hs
-    · exact hLnonempty s hs
-    · rcases List.mem_cons.mp hs with h | h
-      · rw [h]; decide
-      · exact hLnonempty s h
-  have hsk := noSkip_nonempty true (splitSlash (renderRel L)) (nsegsOf true (segs (split b).path).dropLast) hSne
+  have hdfe : DotFree (cb ++ bs) := by rw [← hB]; exact hdfB
+  have hskL : symSkipsGo true (cb ++ bs) L = false := by
+    rw [hL]
+    apply symSkipsGo_append
+    · exact noSkip_nonempty true _ _ (by
+        intro s hs
+        simp only [List.mem_map] at hs
+        obtain ⟨_, _, rfl⟩ := hs; decide)
+    · rw [walk_ups bs cb hdfe]
+      exact (walk_nodots ss cb hplain hstart).2
+  have hsk : symSkipsGo true (nsegsOf true (segs (split b).path).dropLast) (splitSlash (renderRel L)) = false := by
+    rw [← he0, hB]
+    rcases hS with e | e <;> rw [e]
+    · exact hskL
+    · simp only [symSkipsGo]
+      have : (segDot != segDot && segDot != segDotDot && segDot.isEmpty && (cb ++ bs).isEmpty) = false := by simp
+      rw [this]
+      simp only [Bool.false_eq_true, if_false]
+      have hp : (listSymPush true (cb ++ bs) segDot).1 = cb ++ bs := by simp [listSymPush]
+      rw [hp]
+      exact hskL
   -- resolution
   have hres := resolve_relative_authority G ok okp b R ab hb hvr (by rw [hsplit]; rfl) (by rw [hsplit]; rfl)
     (by rw [hsplit]; exact hRne) (by rw [hsplit]; exact hrelp) hab (by rw [hsplit]; exact hsk)
@@ -552,12 +627,12 @@ theorem relative_roundtrip (oka : Grammar.OkAuth G) (we : Grammar.OkWE G) (a b a
     rw [← he0, hB]
     have hdf : DotFree (cb ++ bs) := by rw [← hB]; exact hdfB
     rcases hS with e | e <;> rw [e]
-    · rw [hL, walk_append, walk_ups bs cb hdf, walk_plain ss cb hplain]
-    · rw [walk_dot, hL, walk_append, walk_ups bs cb hdf, walk_plain ss cb hplain]
+    · rw [hL, walk_append, walk_ups bs cb hdf, (walk_nodots ss cb hplain hstart).1]
+    · rw [walk_dot, hL, walk_append, walk_ups bs cb hdf, (walk_nodots ss cb hplain hstart).1]
   have hld : lastDot (splitSlash (renderRel L)) = false := by
     rcases hS with e | e <;> rw [e, hL]
-    · exact lastDot_plain _ ss hrem.1 hplain
-    · rw [← List.cons_append]; exact lastDot_plain _ ss hrem.1 hplain
+    · exact lastDot_nodots _ ss hrem.1 hplain
+    · rw [← List.cons_append]; exact lastDot_nodots _ ss hrem.1 hplain
   rw [hwalk, hld] at hrd
   simp only [Bool.false_and, Bool.false_eq_true, if_false, List.append_nil] at hrd
   -- the key of the result
@@ -577,16 +652,16 @@ theorem relative_roundtrip (oka : Grammar.OkAuth G) (we : Grammar.OkWE G) (a b a
   have hXne : cb ++ ss ≠ [] := fun e => hrem.1 (List.append_eq_nil_iff.mp e).2
   have hXl : cb ++ ss ≠ [[]] := by
     intro e
-    have : [] ∈ ss ∨ ss = [] := by
-      cases cb with
-      | nil => left; simp only [List.nil_append] at e; rw [e]; simp
-      | cons c cs =>
-        right
-        simp only [List.cons_append, List.cons.injEq] at e
-        exact (List.append_eq_nil_iff.mp e.2).2
-    rcases this with h | h
-    · exact hrem.2 h
-    · exact hrem.1 h
+    cases hcb : cb with
+    | nil =>
+      rw [hcb, List.nil_append] at e
+      rcases hstart with h | h
+      · exact h hcb
+      · rw [e] at h; simp at h
+    | cons c cs =>
+      rw [hcb] at e
+      simp only [List.cons_append, List.cons.injEq] at e
+      exact hrem.1 (List.append_eq_nil_iff.mp e.2).2
   have hXdf : DotFree (cb ++ ss) := by
     refine ⟨fun h => ?_, fun h => ?_⟩
     · rcases List.mem_append.mp h with h | h
